@@ -667,3 +667,55 @@ def _shapes():
 WRAPPER_LEMMAS = list(_shapes())
 for _w in WRAPPER_LEMMAS:
     register(_w)
+
+
+# --------------------------------------------------------------------------------------------------- CPD lookup
+class BNGetCpds(Contract):
+    """BayesianNetwork.get_cpds(node): ValueError exactly for a name that is not a node; otherwise an attached CPD whose `variable`
+    is the node, or None when no attached CPD has that variable; get_cpds() returns the list itself.  Nothing is modified."""
+    file = "pgmpy/models/BayesianNetwork.py"
+    qual = "BayesianNetwork.get_cpds"
+    pure = True
+
+    def variants(self, ex):
+        for nl in ("node", "None"):
+            g = new_bn()
+            g.fields["cpds"] = Coll("list", Opaque, z3.Const("cpds", set_sort(Opaque)))
+            g.fields["cpds"].elem_pytype = "CPD"
+            yield f"node={nl}", {"self": g, "node": atom("n") if nl == "node" else NONE}, {}
+
+    def pre(self, ex, st, args):
+        return wf_graph(args["self"])
+
+    def snapshot(self, ex, st, args):
+        return graph_snapshot(args["self"])
+
+    def raises(self, ex, st, args):
+        if not isinstance(args["node"], Scalar):
+            return {}
+        return {"ValueError": z3.Not(N_(args["self"], args["node"].z))}
+
+    def on_raise(self, ex, st, args, old, exc):
+        return graph_unchanged(args["self"], old)
+
+    def post(self, ex, st, args, old, result):
+        from vf.pyvc.engine import NoneV
+        g = args["self"]
+        L = g.fields["cpds"].mem
+        var = z3.Function("cpd_variable", Opaque, Atom)
+        c = fresh("c", Opaque)
+        out = {"frame": graph_unchanged(g, old)}
+        if not isinstance(args["node"], Scalar):
+            out["the-list"] = z3.BoolVal(result is g.fields["cpds"])
+            return out
+        n = args["node"].z
+        if isinstance(result, NoneV):
+            out["none-only-if-no-cpd-for-the-node"] = z3.ForAll([c], z3.Implies(L[c], var(c) != n))
+        elif isinstance(result, Scalar) and result.z.sort() == Opaque:
+            out["an-attached-cpd-of-the-node"] = z3.And(L[result.z], var(result.z) == n)
+        else:
+            return z3.BoolVal(False)
+        return out
+
+
+register(BNGetCpds())
